@@ -15,7 +15,10 @@ RULE = ("unlock: L1 histories (sifapp.Setup, real clp message servers, one cache
         "(none / external 10% / external 5% + native 2%); the clp BeginBlocker/EndBlocker run once per new height; the outcome of the "
         "margin-health stage of every removal (pass / queue / block / panic) is computed on the pre-state with the implementation's own "
         "functions and given to the model, which must reproduce ErrQueued / ErrRemovalsBlockedByHealth as refusals that change nothing; "
-        "the admin RAISES the lock period by 1..47 blocks in a third "
+        "every third history starts with a directed list-length script "
+        "(lock period 2/3/10/50, cancel period 10^6; one provider files 15, 16, 17, 18, 31, 32, 33, 40, 64, 100 or 101 requests of 1..3 units "
+        "one block apart, then requests half of its units two blocks later, then tries to remove exactly that half at the maturity of the "
+        "newest small request, one block before the large request's own maturity, and at it); the admin RAISES the lock period by 1..47 blocks in a third "
         "of the parameter changes (requests matured under the old period are young under the new one); the judge keeps per provider the list "
         "of unlock requests the implementation ACCEPTED with the height at which the harness ran the message (chk c15.request), and every "
         "time any stored unlock list changes (any message, hook or parameter change) chk c15.genuine requires the stored units dated q to "
